@@ -159,7 +159,7 @@ Section GobKind.
       match aget (B "type") mm with Some r => wire_bytes_or_garbage r | None => [] end = n.
     Proof.
       destruct (gob_name_facts n f Hin) as [Hne Hsel].
-      rewrite (genc_obj E p k fs), (enc_struct_obj E k fs) by (rewrite Hty; exact Hsel).
+      rewrite (genc_obj E Hwhole p k fs), (enc_struct_obj E k fs) by (rewrite Hty; exact Hsel).
       unfold enc_obj, enc_map_gen.
       pose proof (type_on_wire E Hwhole k fs Hshape) as Htw.
       destruct (kind_struct_ok E Hwhole k) as [Hsok _].
@@ -183,7 +183,7 @@ Section GobKind.
     Theorem gob_kind_step rec y : dec_step E rec (genc E (IObj p k fs)) = Ok y -> has_kind k y.
     Proof.
       destruct gob_kind_written as (mm & -> & Ht). destruct (gob_name_facts n f Hin) as [Hne Hsel].
-      unfold dec_step. rewrite (sniff_map E rec _ (sniff_here E Hwhole)). unfold dec_object. rewrite Ht.
+      unfold dec_step. rewrite (sniff_map E (whole_codecs E Hwhole) rec _ (sniff_here E Hwhole)). unfold dec_object. rewrite Ht.
       unfold type_selects in Hsel.
       apply andb_true_iff in Hsel. destruct Hsel as [Hsel _]. apply andb_true_iff in Hsel. destruct Hsel as [Hsel Hfresh].
       apply andb_true_iff in Hsel. destruct Hsel as [Hsel _]. apply andb_true_iff in Hsel. destruct Hsel as [Htyper Hdec].
